@@ -699,10 +699,12 @@ pub fn gen_mux(r: &mut Rng, sid: String, runtime: &str) -> Scenario {
     let others = r.range(1, 3);
     let mut mux = Vec::new();
     for call in 0..r.range(1, 4) {
-        let len = match r.below(4) {
+        let len = match r.below(5) {
             0 => r.range(0, 100),
             1 | 2 => r.range(300, 3000),
-            _ => r.range(3000, 40_000),
+            3 => r.range(3000, 40_000),
+            // (several hundred growth steps of the server's receive buffer, received in pieces between other calls)
+            _ => r.range(70_000, 260_000),
         };
         let mut cuts: Vec<u32> = (0..r.range(0, 3)).map(|_| r.range(1, 999) as u32).collect();
         cuts.sort();
